@@ -160,6 +160,10 @@ func c12d12bScenario(ctx *Ctx, fn string, os, ws []cty.Value) {
 			}
 			tag("sound_lookup_map_partial", k+":"+w0+",default:"+shape(ws[2]))
 		}
+	case "IndexFunc":
+		if len(ws) == 2 {
+			tag("sound_index", "collection:"+w0+",key:"+shape(ws[1]))
+		}
 	case "HasIndexFunc":
 		if len(ws) == 2 {
 			tag("sound_hasindex", "collection:"+w0+",key:"+shape(ws[1]))
